@@ -145,7 +145,8 @@ class HttpPeer:
         if self.parser.state == "raw":
             self.raw_in += data
             if self.tunnel_plan and self.tunnel_plan.get("echo"):
-                pipe.server_send(b"E" + data)
+                # "swapcase": an answer that does not depend on how the client's bytes were cut into segments (real sockets)
+                pipe.server_send(bytes(data).swapcase() if self.tunnel_plan["echo"] == "swapcase" else b"E" + data)
             return
         if self.parser.at_boundary() and data:
             # first byte of a new request head: every earlier exchange must be over, both directions
@@ -183,7 +184,7 @@ class HttpPeer:
             elif kind == "raw":
                 self.raw_in += ev[1]
                 if self.tunnel_plan and self.tunnel_plan.get("echo"):
-                    pipe.server_send(b"E" + ev[1])
+                    pipe.server_send(bytes(ev[1]).swapcase() if self.tunnel_plan["echo"] == "swapcase" else b"E" + ev[1])
             elif kind == "error":
                 self.parse_errors.append(ev[1])
 
